@@ -448,6 +448,18 @@ def _(p, i, r):
     return i, 1
 
 
+@op("V31c", "ternary_in_condition", "TERNARY_FBIDDEN", ("ctrl",))
+def _(p, i, r):
+    l = p.lines[i]
+    js = [j for j, (t, c) in enumerate(l.segs) if t == "(" and c == "punct"]
+    if not js or l.meta.get("kw") == "else":
+        return None
+    j = js[0]
+    l.segs[j + 1:] = [("zz", "id:var"), SP, ("?", "op:tern"), SP, ("1", "const:int"), SP, (":", "op:tern"), SP, ("0", "const:int"),
+                      (")", "punct")]
+    return i
+
+
 def _void_param(l):
     """index of the `void` of the function's own empty parameter list (not of a function-pointer parameter)"""
     for j in range(1, len(l.segs) - 2):
